@@ -1780,11 +1780,18 @@ CRASHERS = [
     ("@@\nvar x expression\n@@\n-foo(x, ...)\n+x = ...\n", "package a\n\nfunc first() {\n\tfoo(v)\n}\n", "package a\n\nfunc second() {\n\tfoo(v, 1)\n}\n"),
 ]
 
+def _f32_crasher():
+    for kf in common.load_known():
+        if kf.get("id") == "F32":
+            w = kf["witness"]
+            return [(w["patches"][0], w["src"], "package p\n\nfunc unrelated() {}\n")]
+    return []
+
 def crashing_rewrite_family(ctx, what):
     """Patches whose result is not a well-formed tree for some files (an assignment without a right-hand side): whatever goes wrong
     inside gopatch while such a file is patched is that file's failure - reported with its name, exit status 1, no stack trace -
     and the files after it are processed"""
-    for k, (patch, bad, good) in enumerate(CRASHERS):
+    for k, (patch, bad, good) in enumerate(CRASHERS + _f32_crasher()):
         for names in (("a_first.go", "b_second.go"), ("b_second.go", "z_first.go"), ("a_first.go", "m_second.go", "z_first.go")):
             for flags in ([], ["--print-only"], ["--diff"]):
                 root = ctx.scratch("crash")
@@ -4565,6 +4572,11 @@ def c08(ctx):
         cases.append({"id": f"truncp{k}", "patches": ["@@\n@@\n-foo(1)\n+" + t[1:] + "\n"], "src": "package a\n\nfunc f() { foo(1) }\n"})
     for k, (p, s) in enumerate(ILL_TYPED):
         cases.append({"id": f"ill{k}", "patches": [p], "src": s})
+    # the witnesses of the crashes and hangs that were repaired (F31, F32): regression inputs, through the library and the binary
+    for kf in common.load_known():
+        w = kf.get("witness") if isinstance(kf.get("witness"), dict) else {}
+        if kf.get("property") == "C08" and isinstance(w.get("patches"), list) and isinstance(w.get("src"), str):
+            cases.append({"id": f"ill-{kf['id']}", "patches": w["patches"][:1], "src": w["src"]})
     for k, t in enumerate(RICH):
         for cut in range(2, len(t) + 1):
             cases.append({"id": f"rich{k}_{cut}", "patches": ["@@\n@@\n" + t[:cut] + "\n"], "src": "package a\n\nfunc f() { foo(1) }\n"})
